@@ -316,6 +316,10 @@ class Net:
             elif r[0] == 'sleep':
                 self.spins[i] = 0
                 self.wake[i] = self.w.now + r[1] + self.tick_latency(self.rng, i)
+                if s.wq.tokens > 0:
+                    # a wake-up request that arrived after the thread decided to sleep ends the sleep at once
+                    s.wq.tokens -= 1
+                    self.wake[i] = self.w.now + self.tick_latency(self.rng, i)
             elif r[0] == 'woken':
                 self.spins[i] = 0
                 self.wake[i] = self.w.now + self.tick_latency(self.rng, i)
